@@ -1,0 +1,43 @@
+//go:build verif
+
+/*
+Copyright The ORAS Authors.
+Licensed under the Apache License, Version 2.0 (the "License");
+you may not use this file except in compliance with the License.
+You may obtain a copy of the License at
+
+http://www.apache.org/licenses/LICENSE-2.0
+
+Unless required by applicable law or agreed to in writing, software
+distributed under the License is distributed on an "AS IS" BASIS,
+WITHOUT WARRANTIES OR CONDITIONS OF ANY KIND, either express or implied.
+See the License for the specific language governing permissions and
+limitations under the License.
+*/
+
+package oras
+
+import (
+	"context"
+
+	ocispec "github.com/opencontainers/image-spec/specs-go/v1"
+	"oras.land/oras-go/v2/content"
+)
+
+// This file only re-exports unexported functions for the verification harness
+// (property C03).  It is compiled only with the build tag "verif".
+
+// VerifFindRoots re-exports findRoots.
+func VerifFindRoots(ctx context.Context, storage content.ReadOnlyGraphStorage, node ocispec.Descriptor, opts ExtendedCopyGraphOptions) ([]ocispec.Descriptor, error) {
+	return findRoots(ctx, storage, node, opts)
+}
+
+// VerifFetchArtifactType re-exports fetchArtifactType.
+func VerifFetchArtifactType(ctx context.Context, src content.ReadOnlyGraphStorage, desc ocispec.Descriptor) (string, error) {
+	return fetchArtifactType(ctx, src, desc)
+}
+
+// VerifFetchAnnotations re-exports fetchAnnotations.
+func VerifFetchAnnotations(ctx context.Context, src content.ReadOnlyGraphStorage, desc ocispec.Descriptor) (map[string]string, error) {
+	return fetchAnnotations(ctx, src, desc)
+}
